@@ -193,6 +193,9 @@ func (in *Interp) condValue(c *rt.Node) (Value, *RErr) {
 	if in.W.V2 && IsVoid(v) {
 		return nil, in.err(c, "no value")
 	}
+	if _, multi := v.(MultiT); multi {
+		return nil, in.err(c, "multiple values in a single-value position")
+	}
 	return v, nil
 }
 
@@ -341,6 +344,9 @@ func (in *Interp) operand(n *rt.Node) (Value, *RErr) {
 	}
 	if IsVoid(v) && in.W.V2 {
 		return nil, in.err(n, "no value")
+	}
+	if _, multi := v.(MultiT); multi {
+		return nil, in.err(n, "multiple values in a single-value position")
 	}
 	return v, nil
 }
